@@ -774,37 +774,6 @@ func (e *Evaluator) evalBinaryExpr(expr *ExprBinary) (*Cell, error) {
 	}
 }
 
-// existingSpeculative returns the value that now sits where the speculative
-// object spec would be created, or nil when that member is still missing
-func existingSpeculative(spec *Value) *Value {
-	if spec.Tag != ValueNil || spec.ParentObj == nil {
-		return nil
-	}
-
-	parent := spec.ParentObj
-	if parent.Tag == ValueNil {
-		parent = existingSpeculative(parent)
-	}
-	if parent == nil || (parent.Tag != ValueArray && parent.Tag != ValueObj) {
-		return nil
-	}
-
-	var key Value
-	if spec.Str != nil {
-		key = NewString(*spec.Str)
-	} else if spec.Num != nil {
-		key = NewValue(*spec.Num)
-	} else {
-		return nil
-	}
-
-	member, err := parent.GetMember(key)
-	if err != nil || member == nil || member.Value.Tag == ValueNativeFn {
-		return nil
-	}
-	return &member.Value
-}
-
 func (e *Evaluator) createSpeculativeObjects(specObj *Cell) (*Cell, error) {
 	// Speculative objects are how jqawk implements two features:
 	//
@@ -836,29 +805,35 @@ func (e *Evaluator) createSpeculativeObjects(specObj *Cell) (*Cell, error) {
 		panic("speculative object has no Str or Num")
 	}
 
+	newContainer := func() Value {
+		if memberToSet.Tag == ValueNum {
+			return NewArray()
+		}
+		return NewObject()
+	}
+
 	var objToSet *Value
-	if existing := existingSpeculative(parent); existing != nil {
-		// the parent was missing when the target was evaluated, but something
-		// evaluated since (the right-hand side of the assignment) created it:
-		// store into that, do not replace it
-		objToSet = existing
-	} else if parent.Tag == ValueNil {
-		newParent, err := e.createSpeculativeObjects(NewCell(*parent))
+	if parent.Tag == ValueNil {
+		// the parent was missing when the target was evaluated. What is in its
+		// place now is found (or created) by the same steps one level up:
+		// something evaluated since (the right-hand side of the assignment) may
+		// have created it, and then the store goes into that
+		parentCell, err := e.createSpeculativeObjects(NewCell(*parent))
 		if err != nil {
 			return nil, err
 		}
-
-		var newObj Value
-		if memberToSet.Tag == ValueStr {
-			newObj = NewObject()
-		} else if memberToSet.Tag == ValueNum {
-			newObj = NewArray()
+		if parentCell.Value.Tag == ValueNil && parentCell.Value.ParentObj != nil {
+			// still missing: it has just been created as a member
+			parentCell.Value = newContainer()
 		}
-
-		newParent.Value = newObj
-		objToSet = &newParent.Value
+		objToSet = &parentCell.Value
 	} else {
 		objToSet = parent
+	}
+	if objToSet.Tag == ValueUnknown {
+		// an unset value was stored there meanwhile: a store below it makes it
+		// a container, as it does everywhere else
+		*objToSet = newContainer()
 	}
 
 	if objToSet.Tag == ValueArray || objToSet.Tag == ValueObj {
@@ -880,6 +855,11 @@ func (e *Evaluator) createSpeculativeObjects(specObj *Cell) (*Cell, error) {
 }
 
 func (e *Evaluator) evalAssignment(expr Expr, left *Cell, right *Cell) (*Cell, error) {
+	// the value to store is the one the right-hand side had when it was
+	// evaluated: creating the target below may write into the very cell it
+	// came from (o.b.x = o.b = v)
+	right = NewCell(right.Value)
+
 	if left.Value.Tag == ValueNil && left.Value.ParentObj != nil {
 		// speculative object creation
 		var err error
